@@ -32,4 +32,12 @@ def eventKeys (e : EventRec) : List (String × Bytes) :=
                              ("ktc", keyKtc e.kind l v e.createdAt e.id)]
     | _ => none).flatten
 
+def insertBytes (k : Bytes) : List Bytes → List Bytes
+  | [] => [k]
+  | y :: ys => if bytesLt k y then k :: y :: ys else if k == y then y :: ys else y :: insertBytes k ys
+
+/-- what one of the six tables holds for the live events: its keys, bytewise ascending, each once -/
+def tableKeys (live : List SEv) (table : String) : List Bytes :=
+  ((live.flatMap fun x => (eventKeys x.e).filterMap fun (t, k) => if t == table then some k else none).foldr insertBytes [])
+
 end Pocket
